@@ -114,6 +114,11 @@ type W struct {
 	dbErrArmed string
 	// LastSwapOuts are the outputs of the most recent swap request (for verbatim replays)
 	LastSwapOuts []world.Out
+	// RestoreBatch is the fixed batch of blinded messages of the hrestore operation (byte-identical every time): the
+	// B_ of the next outputs the client will produce, fixed when the operation is first used; HRestores counts its uses
+	RestoreBatch       cashu.BlindedMessages
+	HRestores          int
+	hrestoreSignedThen int
 	// InfoReadWhileDisabled: the info endpoint was read on this mint instance while minting was disabled
 	InfoReadWhileDisabled bool
 	// Unc, when set, makes Invariants skip entities touched by an interrupted operation (C07 durability pass)
@@ -600,6 +605,11 @@ func (w *W) Canon() string {
 		return "ERR " + err.Error()
 	}
 	var sb strings.Builder
+	if w.HRestores > 0 {
+		// the handler instance has answered the fixed restore batch before (it may remember): how many of the batch
+		// were signed then is what a stale answer would show
+		fmt.Fprintf(&sb, "HR%d/%d;", w.HRestores, w.hrestoreSignedThen)
+	}
 	for _, k := range w.Keysets {
 		fmt.Fprintf(&sb, "K%d:%d:%v;", k.Idx, k.Fee, k.Active)
 	}
